@@ -48,6 +48,11 @@ func (m *LuaManager) RunLuaScript(obj *unstructured.Unstructured, script string)
 			return nil, err
 		}
 	}
+	// the base library registers functions that read and execute files from disk;
+	// they have no place in the sandbox
+	for _, name := range []string{"dofile", "loadfile", "require"} {
+		l.SetGlobal(name, lua.LNil)
+	}
 	ctx, cancel := context.WithTimeout(context.Background(), 1*time.Second)
 	defer cancel()
 	l.SetContext(ctx)
